@@ -2,13 +2,17 @@
 (* The statement of C12 in declarative form, checked by TLC against the        *)
 (* operational model for every history (history variables make every state a   *)
 (* distinct operation sequence, so this module is explored without edge        *)
-(* printing).  hist[t] = measurements delivered to aggregator t since its last *)
-(* reset (lifetime for cumulative synchronous streams, cycle otherwise);       *)
-(* phist[t] = the preceding cycle of a pre-computed sum under delta.           *)
+(* printing).  log = the measurements made since Setup, in order, each with    *)
+(* the aggregators its instrument feeds per reader (instruments that feed the  *)
+(* same aggregators are not distinguished); mark[r] =                          *)
+(* length of log at reader r's last collection (pmark[r]: at the one before);  *)
+(* hist[r][t] = measurements delivered to aggregator t of reader r since its   *)
+(* last reset (lifetime for cumulative synchronous streams, cycle otherwise);  *)
+(* phist[r][t] = the preceding cycle of a pre-computed sum under delta.        *)
 EXTENDS Cardinality, FiniteSetsExt
 
-VARIABLES hist, phist
-hvars == <<c, ss, steps, act, hist, phist>>
+VARIABLES hist, phist, log, mark, pmark
+hvars == <<c, ss, steps, act, hist, phist, log, mark, pmark>>
 
 (* declarative cells: distinct filtered sets in arrival order; a set keeps its *)
 (* identity iff it is among the first L-1; all others form the overflow point  *)
@@ -27,77 +31,118 @@ Decl(lim, st, h) ==
                              mn |-> Min({h[j].v : j \in I}), mx |-> Max({h[j].v : j \in I})])
   IN {cell(key) : key \in {keyOf(j) : j \in 1..N}}
 
-(* views, declaratively (per configuration, independent of Table/Feeds order):  *)
-(* an instrument feeds exactly one aggregator per DISTINCT identity among the    *)
-(* streams of its matching views (the default stream when none matches), and    *)
-(* nothing else; aggregator identities are pairwise distinct; an instrument     *)
-(* selected by no view is untouched by every view                               *)
+(* views, declaratively (per configuration and reader, independent of Table /   *)
+(* Feeds order): an instrument feeds exactly one aggregator per DISTINCT        *)
+(* identity among the streams of its matching views (the default stream when    *)
+(* none matches), and nothing else; aggregator identities are pairwise          *)
+(* distinct; an instrument selected by no view gets the READER's aggregation    *)
+(* for its kind, no filter, its own unit and description; a view without an     *)
+(* aggregation gets the reader's, AggregationDefault the SDK default            *)
 Matching(cf, i) == {x \in 1..Len(cf.views) : Match(cf.views[x], i)}
-Wanted(cf, i) == IF Matching(cf, i) = {} THEN {Id(DefaultStream(i))}
-                 ELSE {Id(StreamOf(cf.views[x], i)) : x \in Matching(cf, i)}
+Wanted(cf, rd, i) == IF Matching(cf, i) = {} THEN {Id(DefaultStream(i, rd))}
+                     ELSE {Id(StreamOf(cf.views[x], i, rd)) : x \in Matching(cf, i)}
 ViewsDecl(k) ==
-  LET cf == CfgTab[k]
-      tab == Tabs[k]
-  IN /\ \A x, y \in 1..Len(tab) : Id(tab[x]) = Id(tab[y]) => x = y
-     /\ \A j \in 1..Len(cf.insts) :
-          /\ {Id(tab[t]) : t \in FMaps[k][j]} = Wanted(cf, cf.insts[j])
-          /\ Cardinality(FMaps[k][j]) = Cardinality(Wanted(cf, cf.insts[j]))
-          /\ (Matching(cf, cf.insts[j]) = {} =>
-                \A t \in FMaps[k][j] : tab[t].agg = DefaultAgg(cf.insts[j].kind) /\ ~tab[t].filt.on
-                                        /\ tab[t].unit = cf.insts[j].unit /\ tab[t].desc = cf.insts[j].desc)
-     /\ \A t \in 1..Len(tab) : \E j \in 1..Len(cf.insts) : t \in FMaps[k][j]
+  LET cf == CfgTab[k] IN
+  \A r \in 1..NR(k) :
+    LET tab == Tabs[k][r]
+        rd == cf.readers[r]
+    IN /\ \A x, y \in 1..Len(tab) : Id(tab[x]) = Id(tab[y]) => x = y
+       /\ \A j \in 1..Len(cf.insts) :
+            LET i == cf.insts[j] IN
+            /\ {Id(tab[t]) : t \in FMaps[k][r][j]} = Wanted(cf, rd, i)
+            /\ Cardinality(FMaps[k][r][j]) = Cardinality(Wanted(cf, rd, i))
+            /\ (Matching(cf, i) = {} =>
+                  \A t \in FMaps[k][r][j] : /\ tab[t].agg = ReaderAgg(rd, i.kind)
+                                            /\ ~tab[t].filt.on /\ tab[t].unit = i.unit /\ tab[t].desc = i.desc)
+            /\ \A x \in Matching(cf, i) : \E t \in FMaps[k][r][j] :
+                  /\ Id(tab[t]) = Id(StreamOf(cf.views[x], i, rd))
+                  /\ (cf.views[x].agg = "" => tab[t].agg = ReaderAgg(rd, i.kind))
+                  /\ (cf.views[x].agg = "default" => tab[t].agg = DefaultAgg(i.kind))
+                  /\ (cf.views[x].agg \notin {"", "default"} => tab[t].agg = cf.views[x].agg)
+       /\ \A t \in 1..Len(tab) : \E j \in 1..Len(cf.insts) : t \in FMaps[k][r][j]
 ASSUME \A k \in 1..NCfg : ViewsDecl(k)
 
-HInit == Init /\ hist = <<>> /\ phist = <<>>
+HInit == Init /\ hist = <<>> /\ phist = <<>> /\ log = <<>> /\ mark = <<>> /\ pmark = <<>>
+PerCycle(r, t) == Mode(Tab(r)[t].agg, Tab(r)[t].kind) \in {"psum", "plast"} \/ Temp(r) = "delta"
+(* the part of the log no live aggregator can depend on any more is forgotten  *)
+(* (nothing, as soon as one live stream accumulates over its lifetime)          *)
+KeepAll == \E q \in Rds : \E t \in Live(q) : ~PerCycle(q, t)
+NeedsMark(q) == \E t \in Live(q) : PerCycle(q, t)
+NeedsPMark(q) == \E t \in Live(q) : Mode(Tab(q)[t].agg, Tab(q)[t].kind) = "psum" /\ Temp(q) = "delta"
 HNext == /\ Next
-         /\ CASE act'.op = "S" -> (hist' = [t \in 1..Len(ss') |-> <<>>] /\ phist' = hist')
-              [] act'.op = "M" -> (/\ hist' = [t \in 1..Len(Tab) |->
-                                                IF t \in FMaps[c][act'.i]
-                                                THEN Append(hist[t], [attrs |-> act'.attrs, v |-> act'.v]) ELSE hist[t]]
-                                   /\ UNCHANGED phist)
-              [] act'.op = "C" -> (/\ hist' = [t \in 1..Len(Tab) |->
-                                                LET m == Mode(Tab[t].agg, Tab[t].kind) IN
-                                                IF m \in {"psum", "plast"} \/ Cfg.temp = "delta" THEN <<>> ELSE hist[t]]
-                                   /\ phist' = [t \in 1..Len(Tab) |->
-                                                IF Mode(Tab[t].agg, Tab[t].kind) = "psum" /\ Cfg.temp = "delta"
-                                                THEN hist[t] ELSE <<>>])
+         /\ CASE act'.op = "S" -> (/\ hist' = [r \in 1..Len(ss') |-> [t \in 1..Len(ss'[r]) |-> <<>>]]
+                                   /\ phist' = hist' /\ log' = <<>>
+                                   /\ mark' = [r \in 1..Len(ss') |-> 0] /\ pmark' = mark')
+              [] act'.op = "M" -> (/\ hist' = [r \in Rds |-> [t \in 1..Len(Tab(r)) |->
+                                                IF t \in FMaps[c][r][act'.i]
+                                                THEN Append(hist[r][t], [attrs |-> act'.attrs, v |-> act'.v]) ELSE hist[r][t]]]
+                                   /\ log' = Append(log, [f |-> [q \in Rds |-> FMaps[c][q][act'.i]], attrs |-> act'.attrs, v |-> act'.v])
+                                   /\ UNCHANGED <<phist, mark, pmark>>)
+              [] act'.op = "C" -> (LET r == act'.r IN
+                                   /\ hist' = [hist EXCEPT ![r] = [t \in 1..Len(Tab(r)) |->
+                                                IF PerCycle(r, t) THEN <<>> ELSE hist[r][t]]]
+                                   /\ phist' = [phist EXCEPT ![r] = [t \in 1..Len(Tab(r)) |->
+                                                IF Mode(Tab(r)[t].agg, Tab(r)[t].kind) = "psum" /\ Temp(r) = "delta"
+                                                THEN hist[r][t] ELSE <<>>]]
+                                   /\ LET mk == [mark EXCEPT ![r] = Len(log)]
+                                          pm == [pmark EXCEPT ![r] = mark[r]]
+                                          base == IF KeepAll THEN 0
+                                                  ELSE Min({Len(log)} \cup {mk[q] : q \in {x \in Rds : NeedsMark(x)}}
+                                                                     \cup {pm[q] : q \in {x \in Rds : NeedsPMark(x)}})
+                                      IN /\ log' = SubSeq(log, base + 1, Len(log))
+                                         /\ mark' = [q \in Rds |-> IF NeedsMark(q) THEN mk[q] - base ELSE 0]
+                                         /\ pmark' = [q \in Rds |-> IF NeedsPMark(q) THEN pm[q] - base ELSE 0])
 HSpec == HInit /\ [][HNext]_hvars
-HView == <<c, ss, hist, phist>>
+HView == <<c, ss, hist, phist, log, mark, pmark>>
 
+(* every reader's matching streams receive every measurement exactly once, in   *)
+(* order, whatever the other readers collected in between: what aggregator t of *)
+(* reader r holds is the part of the global log since r's own last collection   *)
+(* (since Setup for cumulative synchronous streams) made on instruments that    *)
+(* feed t                                                                       *)
+Part(r, t, from, to) ==
+  LET idx == SelectSeq([j \in 1..(to - from) |-> from + j], LAMBDA j : t \in log[j].f[r])
+  IN [x \in 1..Len(idx) |-> [attrs |-> log[idx[x]].attrs, v |-> log[idx[x]].v]]
+Delivered == c # 0 => \A r \in Rds : \A t \in Live(r) :
+   /\ hist[r][t] = Part(r, t, IF PerCycle(r, t) THEN mark[r] ELSE 0, Len(log))
+   /\ ((Mode(Tab(r)[t].agg, Tab(r)[t].kind) = "psum" /\ Temp(r) = "delta") => phist[r][t] = Part(r, t, pmark[r], mark[r]))
 (* operational cells = declarative cells, for every history *)
-DeclEq == c # 0 => \A t \in Live : ss[t].cells = Decl(L, Tab[t], hist[t])
+DeclEq == c # 0 => \A r \in Rds : \A t \in Live(r) : ss[r][t].cells = Decl(L, Tab(r)[t], hist[r][t])
 (* nothing lost, nothing duplicated: counts and sums of all delivered measurements *)
-Conserved == c # 0 => \A t \in Live :
-   LET m == Mode(Tab[t].agg, Tab[t].kind) IN
-   /\ (m = "hist" => MapThenSumSet(LAMBDA x : x.n, ss[t].cells) = Len(hist[t]))
-   /\ (m \in {"sum", "psum", "hist"} =>
-         MapThenSumSet(LAMBDA x : x.s, ss[t].cells) = MapThenSumSet(LAMBDA j : hist[t][j].v, 1..Len(hist[t])))
+Conserved == c # 0 => \A r \in Rds : \A t \in Live(r) :
+   LET m == Mode(Tab(r)[t].agg, Tab(r)[t].kind)
+       h == hist[r][t]
+   IN /\ (m = "hist" => MapThenSumSet(LAMBDA x : x.n, ss[r][t].cells) = Len(h))
+      /\ (m \in {"sum", "psum", "hist"} =>
+            MapThenSumSet(LAMBDA x : x.s, ss[r][t].cells) = MapThenSumSet(LAMBDA j : h[j].v, 1..Len(h)))
 (* reported values: a point per cell; pre-computed sums under delta report the *)
 (* change against the same reported set of the preceding cycle (0 if absent)   *)
-PrevDecl(t, x) == LET P == Decl(L, Tab[t], phist[t]) IN
-                  IF \E p \in P : SameKey(p, x) THEN (CHOOSE p \in P : SameKey(p, x)).s ELSE 0
-ReportDecl == c # 0 => \A t \in Live :
-   LET m == Mode(Tab[t].agg, Tab[t].kind)
-       M == {mm \in Report(Cfg, Tab, ss) : MKey(mm) = RKey(Tab[t])}
-   IN IF hist[t] = <<>> THEN M = {}
+PrevDecl(r, t, x) == LET P == Decl(L, Tab(r)[t], phist[r][t]) IN
+                     IF \E p \in P : SameKey(p, x) THEN (CHOOSE p \in P : SameKey(p, x)).s ELSE 0
+ReportDecl == c # 0 => \A r \in Rds : \A t \in Live(r) :
+   LET st == Tab(r)[t]
+       m == Mode(st.agg, st.kind)
+       M == {mm \in Rep(r) : MKey(mm) = RKey(st)}
+   IN IF hist[r][t] = <<>> THEN M = {}
       ELSE /\ Cardinality(M) = 1
            /\ LET mm == CHOOSE mm \in M : TRUE IN
-              /\ Cardinality(mm.pts) = Cardinality(ss[t].cells)
-              /\ \A x \in ss[t].cells : \E p \in mm.pts :
+              /\ Cardinality(mm.pts) = Cardinality(ss[r][t].cells)
+              /\ \A x \in ss[r][t].cells : \E p \in mm.pts :
                    /\ SameKey(p, x)
                    /\ (m = "sum" => p.s = x.s)
-                   /\ (m = "psum" => p.s = x.s - (IF Cfg.temp = "delta" THEN PrevDecl(t, x) ELSE 0))
+                   /\ (m = "psum" => p.s = x.s - (IF Temp(r) = "delta" THEN PrevDecl(r, t, x) ELSE 0))
                    /\ (m \in {"last", "plast"} => p.l = x.l)
-                   /\ (m = "hist" => (p.n = x.n /\ p.mn = x.mn /\ p.mx = x.mx /\ p.s = IF HasSum(Tab[t].kind) THEN x.s ELSE 0))
-(* conservation as seen by the reader: cumulative pre-computed and all          *)
+                   /\ (m = "hist" => (p.n = x.n /\ p.mn = x.mn /\ p.mx = x.mx /\ p.s = IF HasSum(st.kind) THEN x.s ELSE 0))
+(* conservation as seen by each reader: cumulative pre-computed and all         *)
 (* synchronous streams report exactly the total of what they were fed           *)
-ReportedTotal == c # 0 => \A mm \in Report(Cfg, Tab, ss) :
-   \A t \in Live : RKey(Tab[t]) = MKey(mm) =>
-      LET m == Mode(Tab[t].agg, Tab[t].kind) IN
-      /\ (m = "hist" => MapThenSumSet(LAMBDA p : p.n, mm.pts) = Len(hist[t]))
-      /\ ((m = "sum" \/ (m = "psum" /\ Cfg.temp = "cumulative") \/ (m = "hist" /\ HasSum(Tab[t].kind))) =>
-            MapThenSumSet(LAMBDA p : p.s, mm.pts) = MapThenSumSet(LAMBDA j : hist[t][j].v, 1..Len(hist[t])))
-(* every reported metric belongs to exactly one stream *)
-ReportOwned == c # 0 => \A mm \in Report(Cfg, Tab, ss) : Cardinality({t \in Live : RKey(Tab[t]) = MKey(mm)}) = 1
-HInv == Inv /\ DeclEq /\ ReportOwned /\ Conserved /\ ReportDecl /\ ReportedTotal
+ReportedTotal == c # 0 => \A r \in Rds : \A mm \in Rep(r) :
+   \A t \in Live(r) : RKey(Tab(r)[t]) = MKey(mm) =>
+      LET m == Mode(Tab(r)[t].agg, Tab(r)[t].kind)
+          h == hist[r][t]
+      IN /\ (m = "hist" => MapThenSumSet(LAMBDA p : p.n, mm.pts) = Len(h))
+         /\ ((m = "sum" \/ (m = "psum" /\ Temp(r) = "cumulative") \/ (m = "hist" /\ HasSum(Tab(r)[t].kind))) =>
+               MapThenSumSet(LAMBDA p : p.s, mm.pts) = MapThenSumSet(LAMBDA j : h[j].v, 1..Len(h)))
+(* every reported metric belongs to exactly one stream of that reader *)
+ReportOwned == c # 0 => \A r \in Rds : \A mm \in Rep(r) : Cardinality({t \in Live(r) : RKey(Tab(r)[t]) = MKey(mm)}) = 1
+HInv == Inv /\ Delivered /\ DeclEq /\ ReportOwned /\ Conserved /\ ReportDecl /\ ReportedTotal
 =============================================================================
